@@ -206,6 +206,9 @@ type tcase struct {
 	EnvZoneA []string  `json:"envZoneA"`     // which EnvThings carry zone=a
 	FlipRev  int       `json:"flipRev"`      // function index whose active revision flips before reconcile 3 (-1 none)
 	MoveEP   int       `json:"moveEndpoint"` // function index whose active revision's endpoint changes before reconcile 3 (-1)
+	// Terminating: before reconcile 3 one composed resource is deleted while its provider still holds
+	// a finalizer on it: it exists, terminating, and is still part of the observed state
+	Terminating bool `json:"terminatingComposedResource,omitempty"`
 	// EmptyEP: function index whose ACTIVE revision loses its endpoint before reconcile 3 (an upgrade
 	// whose new runtime is not serving yet) while the runner still holds a connection to it (-1)
 	EmptyEP int `json:"emptyEndpoint"`
@@ -258,6 +261,7 @@ func genCase(c *kit.Ctx, i int) tcase {
 	} else if r.IntN(3) == 0 {
 		t.MoveEP = r.IntN(ns)
 	}
+	t.Terminating = r.IntN(3) == 0
 	return t
 }
 
@@ -561,6 +565,17 @@ func (w *worker) run(i int, name string) {
 				}
 			}
 		}
+		if rec == 3 && t.Terminating {
+			for _, o := range world.ListObjs(sim.Key{Group: "nop.ex.org", Kind: "NopA"}.GK()) {
+				u := &unstructured.Unstructured{Object: o}
+				u.SetFinalizers([]string{"provider.ex.org/finalizer"})
+				if err := world.Client("provider").Update(ctx, u); err == nil {
+					_ = user.Delete(ctx, u)
+					c.Count("composed_resources_left_terminating", 1)
+				}
+				break
+			}
+		}
 		if rec == 3 {
 			if f := t.FlipRev; f >= 0 && !t.Steps[f].BetaOnly {
 				// the old revision becomes active again (rollback): requests must move to its server
@@ -728,6 +743,20 @@ func (w *worker) run(i int, name string) {
 		c.Count("fatal_tail_reconciles", 1)
 		// back to a healthy pipeline
 		_, _, _ = env.Reconcile("xr1")
+	}
+	// the runtime behind fn-0's endpoint is upgraded in place: first it only speaks v1beta1, then
+	// only v1 (the endpoint - a Service named after the function - and the revision stay the same)
+	if len(t.Steps) > 0 && !t.Steps[0].BetaOnly && activeSrv[0] != nil {
+		srv := activeSrv[0]
+		for _, mode := range []int32{xrk.ServeBetaOnly, xrk.ServeV1Only, xrk.ServeAsRegistered} {
+			srv.Serve.Store(mode)
+			w.drain()
+			_, rerr, _ := env.Reconcile("xr1")
+			if got := len(srv.Take()); got == 0 {
+				fail("function-unreachable-after-runtime-upgrade-in-place", fmt.Sprintf("fn-0's runtime now answers %s at the same endpoint, but a reconcile delivered no request to it (err %v)", map[int32]string{xrk.ServeBetaOnly: "only v1beta1", xrk.ServeV1Only: "only v1", xrk.ServeAsRegistered: "v1 and v1beta1"}[mode], rerr), t)
+			}
+			c.Count("runtime_upgrade_in_place_reconciles", 1)
+		}
 	}
 	// the active revision of fn-0 loses its endpoint (its new runtime is not serving yet) while the
 	// runner still holds a connection from earlier reconciles: no runtime may be called for it
